@@ -231,6 +231,10 @@ class Pairing:
         # a private module-level function of spydrnet/ir (possibly in a sibling module) is code of the methods that call it: those methods
         # are analysed with it spliced in
         modfuns = {f.name for f in self.funcs.values() if f.cls is None and f.name.startswith("_") and not f.name.startswith("__")}
+        from .inline import inlined_view, calls_iterating_helper
+        for k, f in list(self.funcs.items()):
+            if calls_iterating_helper(self.P, f):
+                self.funcs[k] = inlined_view(self.P, f)
         if modfuns:
             from .inline import inlined_view
             for k, f in list(self.funcs.items()):
